@@ -94,12 +94,10 @@ Lemma fanout_call : forall a e c, fresh_streams a ->
   (forall i, c = CWrite i -> (i < length (a_sstreams a))%nat) ->
   let r := api_call (fanout a e) c in
   r = RErr e \/ own_result r \/
-  (c = CReceiveDatagram /\ a_rcvQueued a = true /\ r = ROk) \/
-  (c = CSendDatagram /\ a_sendRoom a = true /\ r = ROk).
+  (c = CReceiveDatagram /\ a_rcvQueued a = true /\ r = ROk).
 Proof.
   intros a e c Hf Hr Hw. destruct c; cbn [api_call fanout a_mapErr a_dgErr a_rcvQueued a_sendRoom a_rstreams a_sstreams]; auto.
-  - destruct (a_rcvQueued a) eqn:Q; [right; right; left; auto | left; reflexivity].
-  - destruct (a_sendRoom a) eqn:Q; [right; right; right; auto | left; reflexivity].
+  - destruct (a_rcvQueued a) eqn:Q; [right; right; auto | left; reflexivity].
   - specialize (Hr i eq_refl). destruct (nth_error (a_rstreams a) i) as [r|] eqn:N.
     + rewrite (nth_error_map_some _ _ _ _ N). destruct (read_after_shutdown r e); auto.
     + apply nth_error_None in N. lia.
@@ -118,50 +116,48 @@ Lemma fanout_never_parks : forall a e c, fresh_streams a ->
 Proof.
   intros a e c Hf Hr Hw. pose proof (fanout_call a e c Hf Hr Hw) as H. cbv zeta in H.
   unfold own_result in H. intro B. rewrite B in H.
-  destruct H as [H|[[H|[H|H]]|[[_ [_ H]]|[_ [_ H]]]]]; discriminate H.
+  destruct H as [H|[[H|[H|H]]|[_ [_ H]]]]; discriminate H.
 Qed.
 
-(** The one exception (what datagramQueue.Add does): SendDatagram after the close succeeds while
-    the send queue has room. *)
-Lemma send_datagram_after_close_ok : exists a e, api_call (fanout a e) CSendDatagram = ROk.
-Proof.
-  exists {| a_mapErr := None; a_dgErr := None; a_rstreams := []; a_sstreams := []; a_canOpen := false;
-            a_canAccept := false; a_rcvQueued := false; a_sendRoom := true |}, EIdle.
-  reflexivity.
-Qed.
+(** SendDatagram after the close fails with the cause, whether or not its queue has room
+    (datagramQueue.Add looks at the closed queue first). *)
+Lemma send_datagram_after_close : forall a e, api_call (fanout a e) CSendDatagram = RErr e.
+Proof. intros. reflexivity. Qed.
 
 (** ** 2. CONNECTION_CLOSE *)
 
-Lemma close_frame_iff : forall client sentFirstPacket ce,
-  (exists isApp code, close_action client sentFirstPacket ce = ActSendClose isApp code) <->
-  (is_remote (mapped_err ce) = false /\ ce_immediate ce = false /\ (client = false \/ sentFirstPacket = true)).
+Lemma close_frame_iff : forall client sentFirstPacket ampl ce,
+  (exists isApp code, close_action client sentFirstPacket ampl ce = ActSendClose isApp code) <->
+  (is_remote (mapped_err ce) = false /\ ce_immediate ce = false /\ silent_err (mapped_err ce) = false /\
+   (client = false \/ sentFirstPacket = true) /\ ampl = false).
 Proof.
-  intros client sf ce. unfold close_action.
+  intros client sf ampl ce. unfold close_action.
   destruct (is_remote (mapped_err ce)) eqn:R.
   - split; [intros [a [c H]]; discriminate H | intros [H _]; discriminate H].
-  - destruct (ce_immediate ce) eqn:I.
+  - destruct (ce_immediate ce) eqn:I; cbn [orb].
     + split; [intros [a [c H]]; discriminate H | intros [_ [H _]]; discriminate H].
-    + destruct client, sf; cbn [andb negb].
-      * split; [intros _; auto|]. intros _. destruct (close_frame (mapped_err ce)) as [a c]. eauto.
-      * split; [intros [a [c H]]; discriminate H | intros [_ [_ [H|H]]]; discriminate H].
-      * split; [intros _; auto|]. intros _. destruct (close_frame (mapped_err ce)) as [a c]. eauto.
-      * split; [intros _; auto|]. intros _. destruct (close_frame (mapped_err ce)) as [a c]. eauto.
+    + destruct (silent_err (mapped_err ce)) eqn:S.
+      * split; [intros [a [c H]]; discriminate H | intros [_ [_ [H _]]]; discriminate H].
+      * destruct client, sf, ampl; cbn [andb negb];
+          try (split; [intros [a [c H]]; discriminate H | intros [_ [_ [_ [[H|H] H']]]]; discriminate]);
+          (split; [intros _; auto 6 |]; intros _; destruct (close_frame (mapped_err ce)) as [a c]; eauto).
 Qed.
 
 (** the frame carries the kind and code of the (mapped) cause; anything that is neither an
     application nor a transport error goes out as INTERNAL_ERROR *)
-Lemma close_frame_code : forall client sf ce isApp code,
-  close_action client sf ce = ActSendClose isApp code ->
+Lemma close_frame_code : forall client sf ampl ce isApp code,
+  close_action client sf ampl ce = ActSendClose isApp code ->
   match mapped_err ce with
   | EApp _ c => isApp = true /\ code = c
   | ETransport _ c => isApp = false /\ code = c
   | _ => isApp = false /\ code = rl_InternalError
   end.
 Proof.
-  intros client sf ce isApp code H. unfold close_action in H.
+  intros client sf ampl ce isApp code H. unfold close_action in H.
   destruct (is_remote (mapped_err ce)); [discriminate|].
-  destruct (ce_immediate ce); [discriminate|].
+  destruct (ce_immediate ce || silent_err (mapped_err ce)); [discriminate|].
   destruct (client && negb sf); [discriminate|].
+  destruct ampl; [discriminate|].
   destruct (mapped_err ce); cbn in H; inversion H; auto.
 Qed.
 
@@ -169,7 +165,7 @@ Qed.
 Lemma other_maps_to_internal : forall t client sf,
   (client = false \/ sf = true) ->
   mapped_err {| ce_err := EOther t; ce_immediate := false |} = ETransport false rl_InternalError /\
-  close_action client sf {| ce_err := EOther t; ce_immediate := false |} = ActSendClose false rl_InternalError.
+  close_action client sf false {| ce_err := EOther t; ce_immediate := false |} = ActSendClose false rl_InternalError.
 Proof.
   intros t client sf H. split; [reflexivity|]. unfold close_action. cbn.
   destruct client, sf; cbn; try reflexivity. destruct H; discriminate.
@@ -190,56 +186,63 @@ Inductive code_request : closeError -> Prop :=
 | CR_reset_transport : code_request {| ce_err := EStatelessReset; ce_immediate := true |}           (* Transport.maybeHandleStatelessReset: destroy *)
 | CR_reset_conn : code_request {| ce_err := EStatelessReset; ce_immediate := false |}               (* handleShortHeaderPacket returns it as error *)
 | CR_destroy_nil : code_request {| ce_err := ENil; ce_immediate := true |}                          (* doDial: ctx cancelled *)
-| CR_destroy_other t : code_request {| ce_err := EOther t; ce_immediate := true |}.                 (* Transport.close, send queue error *)
+| CR_destroy_other t : code_request {| ce_err := EOther t; ce_immediate := true |}.                 (* Transport.close, send queue error, StartHandshake failure *)
 
-(** timeouts, remote closes and destroy() never put anything on the wire, whoever asks *)
-Lemma silent_closes : forall client sf ce,
-  ce_immediate ce = true \/ is_remote (mapped_err ce) = true ->
-  forall a c, close_action client sf ce <> ActSendClose a c.
+(** timeouts, remote closes, destroy(), stateless resets and abandoned attempts never put anything on the wire, whoever asks *)
+Lemma silent_closes : forall client sf ampl ce,
+  ce_immediate ce = true \/ is_remote (mapped_err ce) = true \/ silent_err (mapped_err ce) = true ->
+  forall a c, close_action client sf ampl ce <> ActSendClose a c.
 Proof.
-  intros client sf ce H a c E.
-  assert (X : exists a c, close_action client sf ce = ActSendClose a c) by eauto.
-  apply close_frame_iff in X. destruct X as [R [I _]]. destruct H; congruence.
+  intros client sf ampl ce H a c E.
+  assert (X : exists a c, close_action client sf ampl ce = ActSendClose a c) by eauto.
+  apply close_frame_iff in X. destruct X as [R [I [S _]]]. destruct H as [H|[H|H]]; congruence.
 Qed.
 
-Lemma timeouts_silent : forall s now pto ce client sf a c,
+Lemma timeouts_silent : forall s now pto ce client sf ampl a c,
   closeErr s = None -> closeErr (step s (EvWake now pto)) = Some ce ->
-  close_action client sf ce <> ActSendClose a c.
+  close_action client sf ampl ce <> ActSendClose a c.
 Proof.
-  intros s now pto ce client sf a c Hn H.
+  intros s now pto ce client sf ampl a c Hn H.
   destruct (step_sets_cause _ _ _ Hn H) as [E|[n [p [E [[_ C]|[_ C]]]]]]; [discriminate| |];
     subst ce; apply silent_closes; left; reflexivity.
 Qed.
 
-(** REFUTED: "a stateless reset, or an attempt abandoned for version negotiation, sends nothing".
-    Both reach the run loop as ordinary errors (not immediate), so handleCloseError sends
-    CONNECTION_CLOSE(INTERNAL_ERROR) and installs the retransmitting stand-in. *)
-Lemma silent_causes_refuted :
-  exists ce, code_request ce /\ (ce_err ce = EStatelessReset \/ ce_err ce = ERecreate) /\
-    forall client, close_action client true ce = ActSendClose false rl_InternalError.
+(** Every request of the code whose cause is a timeout, a stateless reset (detected by the transport or by the
+    connection itself), a version-negotiation outcome, a cancelled dial or a close by the peer is silent. *)
+Lemma silent_causes : forall ce client sf ampl a c, code_request ce ->
+  match ce_err ce with
+  | EIdle | EHsTimeout | EStatelessReset | EVersionNeg | ERecreate | ENil => True
+  | EApp r _ | ETransport r _ => r = true
+  | _ => False
+  end ->
+  close_action client sf ampl ce <> ActSendClose a c.
 Proof.
-  exists {| ce_err := EStatelessReset; ce_immediate := false |}. split; [constructor|]. split; [left; reflexivity|].
-  intros []; reflexivity.
+  intros ce client sf ampl a c H M. apply silent_closes.
+  destruct H; cbn in M |- *; auto; try contradiction; try discriminate.
 Qed.
-Lemma recreate_sends_close :
-  code_request {| ce_err := ERecreate; ce_immediate := false |} /\
-  close_action true true {| ce_err := ERecreate; ce_immediate := false |} = ActSendClose false rl_InternalError.
-Proof. split; [constructor | reflexivity]. Qed.
 
-(** all other code requests: a frame iff local application/transport error (or unknown error) of a
+(** all code requests: a frame iff local application/transport error (or unknown error) of a
     non-immediate close, with exactly the cause's kind and code *)
 Lemma code_request_frames : forall ce client sf, code_request ce -> (client = false \/ sf = true) ->
   match ce_err ce, ce_immediate ce with
-  | EApp false c, false => close_action client sf ce = ActSendClose true c
-  | ETransport false c, false => close_action client sf ce = ActSendClose false c
-  | EOther _, false | EStatelessReset, false | ERecreate, false => close_action client sf ce = ActSendClose false rl_InternalError
-  | EApp true _, _ | ETransport true _, _ => close_action client sf ce = ActReplaceClosedNil
-  | _, _ => close_action client sf ce = ActRemoveAll
+  | EApp false c, false => close_action client sf false ce = ActSendClose true c
+  | ETransport false c, false => close_action client sf false ce = ActSendClose false c
+  | EOther _, false => close_action client sf false ce = ActSendClose false rl_InternalError
+  | EApp true _, _ | ETransport true _, _ => close_action client sf false ce = ActReplaceClosedNil
+  | _, _ => close_action client sf false ce = ActRemoveAll
   end.
 Proof.
   intros ce client sf H Hs.
   assert (B : client && negb sf = false) by (destruct client, sf; cbn; try reflexivity; destruct Hs; discriminate).
   destruct H; cbn; unfold close_action; cbn; rewrite ?B; reflexivity.
+Qed.
+
+(** anti-amplification: while the limit is used up nothing is sent, a stand-in absorbs what still arrives *)
+Lemma amplification_limited_silent : forall client sf ce a c, close_action client sf true ce <> ActSendClose a c.
+Proof.
+  intros client sf ce a c E.
+  assert (X : exists a c, close_action client sf true ce = ActSendClose a c) by eauto.
+  apply close_frame_iff in X. destruct X as (_ & _ & _ & _ & X). discriminate.
 Qed.
 
 (** *** closed-connection stand-in: replies exactly on packets 1, 2, 4, 8, ... *)
@@ -335,7 +338,7 @@ Fixpoint hist_firstAE (f0 : Z) (l : list ev) : Z :=
 Fixpoint hist_idle (c : cfg) (i0 : Z) (l : list ev) : Z :=
   match l with
   | [] => i0
-  | EvHsComplete p :: r => hist_idle c (if 0 <? p then Z.min (c_maxIdleTimeout c) p else c_maxIdleTimeout c) r
+  | EvHsComplete p _ :: r => hist_idle c (if 0 <? p then Z.min (c_maxIdleTimeout c) p else c_maxIdleTimeout c) r
   | _ :: r => hist_idle c i0 r
   end.
 
@@ -526,11 +529,19 @@ Lemma ka_half : forall s pto, 0 <= pto -> 0 <= idleTimeout s -> kaInterval s <= 
   2 * kaEff s pto <= idleEff s pto + 1.
 Proof. intros s pto Hp Hi Hk. unfold kaEff, idleEff. lia. Qed.
 
-Lemma applyTP_sane : forall s p, 0 <= c_maxIdleTimeout (cf s) -> 0 <= c_keepAlivePeriod (cf s) ->
-  sane (applyTP s p) /\ kaInterval (applyTP s p) <= idleTimeout (applyTP s p) / 2.
+Lemma applyTP_sane : forall s p a, 0 <= c_maxIdleTimeout (cf s) -> 0 <= c_keepAlivePeriod (cf s) ->
+  sane (applyTP s p a) /\ kaInterval (applyTP s p a) <= idleTimeout (applyTP s p a) / 2.
 Proof.
-  intros s p Hi Hk. unfold sane, applyTP. cbn.
-  destruct (0 <? p) eqn:E; lia.
+  intros s p a Hi Hk. unfold sane, applyTP. cbn.
+  destruct (0 <? p) eqn:E; destruct (0 <? a) eqn:E'; lia.
+Qed.
+
+(** the interval also leaves half of the period the PEER advertised (it times out after that, whatever
+    lower bound is applied to the own idle timer) *)
+Lemma applyTP_respects_peer : forall s p a, 0 < a -> kaInterval (applyTP s p a) <= a / 2.
+Proof.
+  intros s p a Ha. unfold applyTP. cbn. assert (E : (0 <? a) = true) by lia. rewrite E.
+  destruct (0 <? p); lia.
 Qed.
 
 (** *** rounds: PING at the armed deadline, answered in time => never idle *)
@@ -633,6 +644,40 @@ Lemma rounds_ping_each : forall s r, ka_state s -> round_ok s r ->
   decide s (lastRecv s + Z.max (kaInterval s) (rd_pto r * 3 / 2)) (rd_pto r) = DKeepAlive.
 Proof. intros s r K H. destruct (round_preserves s r K H) as [D _]. exact D. Qed.
 
+(** ** 4b. Any number of parked callers per call *)
+
+Lemma woken_from_all : forall ps served,
+  NoDup (filter (fun c => match close_wakeup c with WakeOne => true | WakeAll => false end) ps) ->
+  (forall p, In p ps -> close_wakeup p = WakeOne -> ~ In p served) ->
+  woken_from close_wakeup served ps = ps.
+Proof.
+  induction ps as [|p r IH]; intros served N D; [reflexivity|].
+  cbn [woken_from]. cbn [filter] in N. destruct (close_wakeup p) eqn:W.
+  - f_equal. apply IH; [exact N|]. intros q Hq. apply D. right. exact Hq.
+  - inversion N as [|? ? Hnotin N']; subst.
+    destruct (in_dec call_eq_dec p served) as [I|I].
+    + exfalso. apply (D p (or_introl eq_refl) W). exact I.
+    + f_equal. apply IH; [exact N'|]. intros q Hq Wq [E|I'].
+      * subst q. apply Hnotin. apply filter_In. split; [exact Hq|]. rewrite W. reflexivity.
+      * apply (D q (or_intror Hq) Wq). exact I'.
+Qed.
+
+(** every parked goroutine is woken, however many are parked in the same call *)
+Lemma all_parked_woken : forall ps, one_per_stream ps -> woken ps = ps.
+Proof. intros ps H. apply woken_from_all; [exact H|]. intros p _ _ []. Qed.
+
+(** ... and what a single token would do instead: of two goroutines parked in the same call the second one
+    stays parked (this is why the maps and the datagram queue close a channel) *)
+Lemma one_token_leaves_parked : forall wk c, wk c = WakeOne -> woken_from wk [] [c; c] = [c].
+Proof.
+  intros wk c H. cbn [woken_from]. rewrite H. destruct (in_dec call_eq_dec c []) as [[]|_].
+  destruct (in_dec call_eq_dec c [c]) as [_|N]; [reflexivity|]. exfalso. apply N. left. reflexivity.
+Qed.
+
+Lemma close_wakeup_accept_open_datagram : forall c,
+  match c with CRead _ | CWrite _ => True | _ => close_wakeup c = WakeAll end.
+Proof. destruct c; exact I || reflexivity. Qed.
+
 (** ** Statements as used by Props/C17.v *)
 
 Definition call_in_range (a : api) (c : call) : Prop :=
@@ -647,11 +692,25 @@ Lemma single_cause : forall s l1 ce l2,
     let r := api_call (fanout a e) c in
     r <> RBlock /\
     (r = RErr e \/ own_result r \/
-     (c = CReceiveDatagram /\ a_rcvQueued a = true /\ r = ROk) \/
-     (c = CSendDatagram /\ a_sendRoom a = true /\ r = ROk)).
+     (c = CReceiveDatagram /\ a_rcvQueued a = true /\ r = ROk)).
 Proof.
   intros s l1 ce l2 H. split; [apply first_request_wins; exact H|].
   intros a c Hf [Hr Hw]. cbv zeta. split.
+  - apply fanout_never_parks; assumption.
+  - apply fanout_call; assumption.
+Qed.
+
+(** the parked goroutines: a list [ps] of calls in which the same call may occur any number of times
+    (at most one per stream direction). All of them are woken, and each returns the cause (or its object's
+    own terminal result / a datagram queued before). *)
+Lemma single_cause_parked : forall a e ps, fresh_streams a -> Forall (call_in_range a) ps -> one_per_stream ps ->
+  woken ps = ps /\
+  Forall (fun c => let r := api_call (fanout a e) c in
+                   r <> RBlock /\
+                   (r = RErr e \/ own_result r \/ (c = CReceiveDatagram /\ a_rcvQueued a = true /\ r = ROk))) ps.
+Proof.
+  intros a e ps Hf Hr H1. split; [apply all_parked_woken; exact H1|].
+  rewrite Forall_forall in *. intros c Hc. destruct (Hr c Hc) as [R W]. cbv zeta. split.
   - apply fanout_never_parks; assumption.
   - apply fanout_call; assumption.
 Qed.
@@ -668,10 +727,11 @@ Proof.
   - destruct (step_sets_cause _ _ _ Hn H) as [E|[n [p [E [[_ C]|[_ C]]]]]]; [discriminate|auto|auto].
 Qed.
 
-Lemma close_frame_due : forall client sentFirstPacket ce,
-  ((exists isApp code, close_action client sentFirstPacket ce = ActSendClose isApp code) <->
-   (is_remote (mapped_err ce) = false /\ ce_immediate ce = false /\ (client = false \/ sentFirstPacket = true))) /\
-  (forall isApp code, close_action client sentFirstPacket ce = ActSendClose isApp code ->
+Lemma close_frame_due : forall client sentFirstPacket ampl ce,
+  ((exists isApp code, close_action client sentFirstPacket ampl ce = ActSendClose isApp code) <->
+   (is_remote (mapped_err ce) = false /\ ce_immediate ce = false /\ silent_err (mapped_err ce) = false /\
+    (client = false \/ sentFirstPacket = true) /\ ampl = false)) /\
+  (forall isApp code, close_action client sentFirstPacket ampl ce = ActSendClose isApp code ->
      match mapped_err ce with
      | EApp _ c => isApp = true /\ code = c
      | ETransport _ c => isApp = false /\ code = c
@@ -686,18 +746,28 @@ Proof. reflexivity. Qed.
 
 (** ** 5. Routing entries *)
 
-(** after a close processed by the loop, nothing is left once the closing period (3 PTO) is over;
-    timeouts, destroy() and closes before the first packet leave nothing from the start *)
-Lemma routing_released : forall client sf ce elapsed expiry,
-  (expiry <= elapsed -> exit_routing client sf (ExitLoop ce) elapsed expiry = 0) /\
-  (ce_immediate ce = true -> is_remote (mapped_err ce) = false -> exit_routing client sf (ExitLoop ce) elapsed expiry = 0).
+(** after a close nothing is left once the closing period (3 PTO) is over; timeouts, destroy(), stateless
+    resets, abandoned attempts and closes before the first packet leave nothing from the start *)
+Lemma routing_released : forall client sf ampl ce elapsed expiry,
+  (expiry <= elapsed -> exit_routing client sf ampl ce elapsed expiry = 0) /\
+  (ce_immediate ce = true \/ silent_err (mapped_err ce) = true -> is_remote (mapped_err ce) = false ->
+   exit_routing client sf ampl ce elapsed expiry = 0).
 Proof.
-  intros client sf ce elapsed expiry. split.
+  intros client sf ampl ce elapsed expiry. split.
   - intros H. unfold exit_routing. assert (X : (expiry <=? elapsed) = true) by lia. rewrite X. reflexivity.
-  - intros I R. unfold exit_routing, close_action. rewrite R, I. destruct (expiry <=? elapsed); reflexivity.
+  - intros I R. unfold exit_routing, close_action. rewrite R.
+    assert (X : ce_immediate ce || silent_err (mapped_err ce) = true) by (destruct I as [I|I]; rewrite I; auto using orb_true_r).
+    rewrite X. destruct (expiry <=? elapsed); reflexivity.
 Qed.
 
-(** REFUTED for the early return: the connection stays registered for ever, and its API objects are never closed *)
-Lemma early_exit_leaks : forall client sf e elapsed expiry,
-  exit_routing client sf (ExitEarly e) elapsed expiry = 3 /\ exit_fanout (ExitEarly e) = None.
-Proof. intros. split; reflexivity. Qed.
+(** a handshake that cannot even be started: nothing is sent, nothing stays registered, and the API objects
+    are closed with the very error Dial returns *)
+Lemma start_failure_released : forall client sf ampl t elapsed expiry a c,
+  exit_routing client sf ampl (start_failure (EOther t)) elapsed expiry = 0 /\
+  exit_fanout (start_failure (EOther t)) = EOther t /\ ctx_cause (start_failure (EOther t)) = EOther t /\
+  close_action client sf ampl (start_failure (EOther t)) <> ActSendClose a c.
+Proof.
+  intros. split; [|split; [reflexivity|split; [reflexivity|]]].
+  - unfold exit_routing, close_action. cbn. destruct (expiry <=? elapsed); reflexivity.
+  - apply silent_closes. left. reflexivity.
+Qed.
